@@ -286,6 +286,7 @@ def run(prog, chk):
     slots_by_reference(prog, chk)
     parent_slot_by_identity(prog, chk, "C01.o")
     C.assignment_discards_old(prog, chk, "C01.p", TREE)
+    short_cut_only_without_adoption(prog, chk, "C01.q")
     balance_bookkeeping(prog, chk)
     C.parent_pairing(prog, chk, "C01.h", TREE)
     from .. import containers
@@ -743,3 +744,40 @@ def _slot_choice(chk, rid, f, cond, at, par):
                 "the slot of the removed node is chosen by `%s`: after a rotation an entry can be the left child of a parent with an EQUAL key, "
                 "the test then names the other slot - a live subtree is detached and the destroyed node stays linked in the tree "
                 "(insert 5,5,5; remove(begin()); find(5) compares against the destroyed entry)" % txt[:60], evals=2)
+
+
+def short_cut_only_without_adoption(prog, chk, rid):
+    """remove() ends in two walks: the first recomputes heights from the point of surgery up to the removed node's old parent, the
+    second only continues upwards and stops as soon as a height is unchanged.  The stop test compares a node's STORED height with its
+    recomputed one, which says something about the subtree only if that node has kept its children.  A node that has just adopted
+    the removed node's children (the moved successor / predecessor) still stores the height of its old position: entered directly,
+    the second walk stops at once and every ancestor keeps a stale height."""
+    chk.rule(rid, "ORD: in Map/MultiMap::remove a jump to the final upward walk (the one that only stops on an unchanged height) is not "
+                  "reachable from a store that gives a node new children (`X->left = ..` / `X->right = ..`); those cases enter the first walk", floor=4)
+    n = 0
+    for cls in TREE:
+        for tn, fs in sorted(C.class_insts(prog, cls).items()):
+            for f in fs:
+                if f.cls != tn or f.short != "remove" or not f.blocks:
+                    continue
+                labels = [(nd.get("l") or 0, nd.get("label")) for nd in f.nodes if nd["k"] == "LabelStmt" and nd.get("label")]
+                gotos = [i for i, nd in enumerate(f.nodes) if nd["k"] == "GotoStmt" and nd.get("label")]
+                if len(labels) < 2 or not gotos:
+                    continue
+                last = max(labels)[1]
+                adopt = [s_ for s_ in q.stores(f) if re.search(r"\w->(left|right)$", q.no_casts(f.r(s_.lhs))) and s_.rhs is not None and not q.is_zero(f, s_.rhs)]
+                for g in gotos:
+                    if f.nodes[g]["label"] != last or f.node_pos(g) is None:
+                        continue
+                    n += 1
+                    pre = [s_ for s_ in adopt if f.node_pos(s_.node) is not None and q.reaches(f, s_.node, g)]
+                    if pre:
+                        chk.bad(rid, f, "short-cut-after-adoption", f.where(g),
+                                "`goto %s` follows `%s`: the node that has just taken over the removed node's children still stores the height of its "
+                                "old position, the walk's stop test (stored height == recomputed height) holds by accident and the ancestors keep "
+                                "heights that are one too large - later rotations act on them and the tree stops being balanced" % (
+                                    last, q.no_casts(f.r(pre[0].node))[:40]), evals=len(adopt) + 1)
+                    else:
+                        chk.ok(rid, f, "jump to the final walk at line %s follows no adoption of children" % f.nodes[g].get("l"), f.where(g), "reachability from the child-link stores", evals=len(adopt) + 1)
+    if n < 4:
+        raise AnalysisBroken("C01.q: only %d jumps to the final upward walk found in Map/MultiMap::remove" % n)
